@@ -289,6 +289,25 @@ func checkC20(p *Prog, r *Report) {
 		if len(p.CallsTo(f, false, "ice.Agent.sendNominationRequest")) == 0 {
 			r.Fail("renominate sends", p.Pos(f.Body.Pos()), "renominateCandidate never sends a nomination request")
 		}
+		// success is reported only by having sent: no path returns nil without the send
+		okRet := true
+		walkBody(f, func(n ast.Node) bool {
+			rs, isR := n.(*ast.ReturnStmt)
+			if !isR || len(rs.Results) != 1 {
+				return true
+			}
+			if c, isC := unparen(rs.Results[0]).(*ast.CallExpr); isC && p.CalleeName(c) == "ice.Agent.sendNominationRequest" {
+				return true
+			}
+			if p.isNilExpr(rs.Results[0]) {
+				okRet = false
+				r.Fail("renominate: success only by sending", p.Pos(rs.Pos()), "renominateCandidate reports success on a path that sends no nomination: the selected pair seen by the controlling side is stale while an earlier renomination is in flight, so 'already selected' silently drops the newer (higher-valued) nomination and the earlier one wins")
+			}
+			return true
+		})
+		if okRet {
+			r.OK("renominate: success only by sending", p.Pos(f.Body.Pos()), "every nil result is the send's result")
+		}
 	}
 	if f := p.Fn("Agent.sendNominationRequest"); r.Anchor("Agent.sendNominationRequest", f != nil) {
 		n := 0
@@ -363,6 +382,19 @@ func checkC20(p *Prog, r *Report) {
 			"writer sizes "+strings.Join(ws.sizes, ",")+" shifts "+strings.Join(ws.shifts, ",")+" idx "+strings.Join(ws.indices, ",")+"; reader sizes "+strings.Join(rs.sizes, ",")+" shifts "+strings.Join(rs.shifts, ",")+" idx "+strings.Join(rs.indices, ","))
 	}
 	_ = token.ADD
+
+	// ---- R20.6 deferred acceptance survives supersession ----------------------------------------------------
+	r.Rule("R20.6", "A nomination accepted before its pair was valid is remembered on the pair; when a signalled candidate supersedes the peer-reflexive one, the replacement pair keeps that remembered nomination (and the pair's state), so the accepted value still leads to the switch once the check succeeds.", 1)
+	if f := p.Fn("replacePairRemote"); r.Anchor("replacePairRemote", f != nil) {
+		covered, _ := p.replacePairCoverage(f)
+		var missing []string
+		for _, n := range []string{"nominateOnBindingSuccess", "nominated", "state"} {
+			if !covered[n] {
+				missing = append(missing, n)
+			}
+		}
+		r.Check(len(missing) == 0, "replacePairRemote keeps the remembered nomination", p.Pos(f.Body.Pos()), "nominateOnBindingSuccess, nominated, state copied from the same field", "not carried over: "+strings.Join(missing, ", ")+" — the value was already recorded as accepted, so the retransmitted nomination is rejected as 'not greater' and the controlled agent never switches")
+	}
 }
 
 func rowKey(sp *SemPath, names ...string) string {
